@@ -151,11 +151,15 @@ Section T.
 
   Definition absent (l : list mdef) (m : N) : bool := match find_m l m with None => true | Some _ => false end.
 
+  (* not defined in the class nor in its base class *)
+  Definition absentm (cs : list cdef) (cd : cdef) (m : N) : bool :=
+    match find_meth cs cd m with None => true | Some _ => false end.
+
   Definition fresh_ok (P : prog) : bool :=
     negb (k_enc k && k_fac k)
     && (negb (k_enc k) ||
         match find_c (p_classes P) (k_cls k) with
-        | Some cd => absent (c_methods cd) (k_get k) && absent (c_methods cd) (k_set k)
+        | Some cd => absentm (p_classes P) cd (k_get k) && absentm (p_classes P) cd (k_set k)
                      && negb (N.eqb (k_get k) (k_set k)) && negb (N.eqb (k_self k) (k_value k))
                      && negb (N.eqb (k_get k) init_name) && negb (N.eqb (k_set k) init_name)
         | None => false
@@ -163,42 +167,35 @@ Section T.
     && (negb (k_fac k) ||
         (if k_fglobal k then absent (p_funcs P) (k_fname k)
          else match find_c (p_classes P) (k_fcls k) with
-              | Some cd => absent (c_methods cd) (k_fname k) && negb (N.eqb (k_fname k) init_name)
+              | Some cd => absentm (p_classes P) cd (k_fname k) && negb (N.eqb (k_fname k) init_name)
               | None => false
               end)).
 
   Definition no_base (cd : cdef) : bool := match c_base cd with None => true | Some _ => false end.
 
-  (* [ok_c] includes: the class has no base class (the semantics has no inheritance) *)
-  Definition ok_cb (cd : cdef) : bool := ok_c cd && no_base cd.
+  (* [ok_c] and: a base class exists and has no base class itself (the semantics looks one level up) *)
+  Definition ok_cb (cs : list cdef) (cd : cdef) : bool :=
+    ok_c cd && match c_base cd with
+               | None => true
+               | Some b => match find_c cs b with Some bd => no_base bd | None => false end
+               end.
 
   Definition side (P : prog) : bool :=
     fresh_ok P
-    && forallb ok_cb (p_classes P)
+    && forallb (ok_cb (p_classes P)) (p_classes P)
     && forallb (fun d => ok_body true (m_body d)) (p_funcs P)
     && forallb (ok_s true) (p_main P).
 End T.
 
-(* `name in pyclass`: the class or one of its ancestors (single inheritance, fuel = number of classes + 1) defines a
-   method of that name (in Obj the class attributes considered are the methods) *)
-Fixpoint class_has (fuel : nat) (cs : list cdef) (c m : N) : bool :=
-  match fuel with
-  | O => false
-  | S n =>
-      match find_c cs c with
-      | None => false
-      | Some cd =>
-          negb (absent (c_methods cd) m)
-          || match c_base cd with Some b => class_has n cs b m | None => false end
-      end
-  end.
-
 (* EncapsulateField.get_changes refuses when the getter or setter name is already an attribute of the class, own or
-   INHERITED (fix 72d97d7: `accessor in defining_class`) *)
+   INHERITED (fix 72d97d7: `accessor in defining_class`; one level of inheritance, which is the whole chain for the
+   programs [side] admits; in Obj the class attributes considered are the methods) *)
 Definition enc_refuses (k : cfg) (P : prog) : bool :=
   k_enc k &&
-  (class_has (S (length (p_classes P))) (p_classes P) (k_cls k) (k_get k)
-   || class_has (S (length (p_classes P))) (p_classes P) (k_cls k) (k_set k)).
+  match find_c (p_classes P) (k_cls k) with
+  | Some cd => negb (absentm (p_classes P) cd (k_get k)) || negb (absentm (p_classes P) cd (k_set k))
+  | None => false
+  end.
 
 Definition enc_cfg (augparen : bool) (cls fld get set skip self value : N) : cfg :=
   {| k_enc := true; k_cls := cls; k_fld := fld; k_get := get; k_set := set; k_skip := skip;
